@@ -256,7 +256,7 @@ POOLS = {
           0.1, 2.0 ** 53, 5e-324, 1e300, -1.0, 1.00000005, 3.0, 10.0, 9.0, 16777216.0, 1e-320, -1.00000001, 1e308,
           -1e308, 0.30000000000000004, 0.3],
     'g': [float('nan'), float('inf'), float('-inf'), 0.0, -0.0, 1.0, 1.5, 2.0, f32(1.0000001), f32(1.0000002),
-          f32(0.1), 16777216.0, -1.0, 3.0, 10.0, 9.0, f32(1.00000012) , f32(1.00000024), f32(1e30), f32(1.00000036)],
+          f32(0.1), 16777216.0, -1.0, 3.0, 10.0, 9.0, f32(1.00000012), f32(1.00000024), f32(1e30), f32(1.00000036), 2 - 2 ** -23, 2 - 2 ** -22, 2 - 3 * 2 ** -23],
     's': ['', 'a', 'abc', 'abd', 'ab', 'B', '1', '1.0', '10', '9', 'true', 'false', 'NaN', 'INF', '-INF', ' 1 ', '-0',
           '\U00010000', '￿', 'é', '1.5', '0', '-1', '+1', 'x', '1.00000001', '2', '3', 'ba', '12', 'abca'],
     'a': ['', 'a', 'abc', 'abd', 'ab', 'B', '1', 'x', 'é', '10', '9'],
@@ -345,6 +345,17 @@ def corpus():
         c.append({'k': 'G', 'm': 'v2c', 'op': op, 'l': [('n', 'a'), ('n', 'b')], 'r': [('b', True)]})
         c.append({'k': 'V', 'm': 'v2', 'op': op, 'l': [('i', 2 ** 53 + 1)], 'r': [('f', 2.0 ** 53)]})
         c.append({'k': 'V', 'm': 'v2', 'op': op, 'l': [('s', 'a')], 'r': [('q', '', '', 'a')]})
+        c.append({'k': 'V', 'm': 'v2', 'op': op, 'l': [('i', 16777217)], 'r': [('g', 16777216.0)]})
+        c.append({'k': 'G', 'm': 'v2', 'op': op, 'l': [('i', 2 ** 53 + 1)], 'r': [('f', 2.0 ** 53)]})
+        c.append({'k': 'V', 'm': 'v2', 'op': op, 'l': [('g', 2 - 2 ** -22)], 'r': [('g', 2 - 2 ** -23)]})
+        c.append({'k': 'G', 'm': 'v31', 'op': op, 'l': [('g', 2 - 2 ** -22)], 'r': [('g', 2 - 2 ** -23)]})
+        c.append({'k': 'G', 'm': 'v2', 'op': op, 'l': [('D', (2000, 1, 1))], 'r': [('i', 1)]})
+        c.append({'k': 'G', 'm': 'v2', 'op': op, 'l': [('b', True)], 'r': [('f', 1.0)]})
+        c.append({'k': 'G', 'm': 'v2', 'op': op, 'l': [('x', b'AB')], 'r': [('y', b'AB')]})
+        c.append({'k': 'G', 'm': 'v2', 'op': op, 'l': [('u', 'abc')], 'r': [('d', '1.5')]})
+        c.append({'k': 'G', 'm': 'v2', 'op': op, 'l': [('u', 'NaN')], 'r': [('d', '1.5')]})
+        c.append({'k': 'G', 'm': 'v1', 'op': op, 'l': [('s', 'abc')], 'r': [('i', 1)]})
+        c.append({'k': 'G', 'm': 'v1', 'op': op, 'l': [('b', True)], 'r': [('i', 2)]})
     for f in ('boolean', 'not', 'if'):
         for l in ([], [('i', 1), ('i', 2)], [('n', 'a'), ('i', 1)], [('i', 1), ('n', 'a')], [('f', float('nan'))],
                   [('d', '0.0')], [('q', '', '', 'a')], [('s', '')], [('u', 'false')], [('f', -0.0)]):
